@@ -62,7 +62,9 @@ def main(argv):
             sh("git", "clean", "-qfd", cwd=wt)
     finally:
         sh("git", "-C", "/repo", "worktree", "remove", "--force", wt)
-    json.dump(results, open(os.path.join(VERIF, "seeded", "RESULTS.json"), "w"), indent=1, sort_keys=True)
+    # (a run over selected seeds does not replace the table of the last full run)
+    full = not [a for a in argv if not a.startswith("--")]
+    json.dump(results, open(os.path.join(VERIF, "seeded", "RESULTS.json" if full else "RESULTS.partial.json"), "w"), indent=1, sort_keys=True)
     n = len(results)
     c = sum(1 for v in results.values() if v["status"] == "CAUGHT")
     print(f"{c}/{n} seeded changes caught by the check of their own property")
